@@ -5,6 +5,7 @@
                                                        every vector that fits in memory, so the index that follows panics —
                                                        the compiler uses it for index arithmetic only; both profiles: Panic)
      usize::checked_sub            usize_checked_sub
+     Range::new(a, b)              range_new          (range-map 0.2.0: panics when a > b)
      Result<usize,usize>::err      bres_err           (the Result of slice::binary_search_by_key is Model.bres)
      Option::and_then              opt_and_then
      FrameSymbolizer callbacks     fr_set_function / fr_set_source_file / fr_add_inline_frame on Model.sym_out:
@@ -15,6 +16,7 @@ Open Scope Z_scope.
 
 Definition PANIC_SUB : Z := 1105.      (* `a - b` on u64 below zero (debug) *)
 Definition PANIC_USIZE : Z := 1106.    (* `index - n` on usize below zero *)
+Definition PANIC_RANGE : Z := 1107.    (* range_map::Range::new(start, end) with start > end: "Ranges must be ordered" *)
 
 Definition vec_index {A} (l : list A) (i : nat) : outcome A :=
   match nth_error l i with Some e => Ret e | None => Panic PANIC_INDEX end.
@@ -22,6 +24,7 @@ Definition usize_sub (a b : nat) : outcome nat :=
   if Nat.ltb a b then Panic PANIC_USIZE else Ret (a - b)%nat.
 Definition usize_checked_sub (a b : nat) : option nat :=
   if Nat.ltb a b then None else Some (a - b)%nat.
+Definition range_new (a b : Z) : outcome range := if b <? a then Panic PANIC_RANGE else Ret (a, b).
 Definition bres_err (r : bres) : option nat := match r with BOk _ => None | BErr i => Some i end.
 Definition opt_and_then {A B} (f : A -> option B) (o : option A) : option B :=
   match o with Some a => f a | None => None end.
